@@ -40,53 +40,53 @@ FileVal(a) == IF a.k = "n" THEN NumVal(a.mant, a.e10)
               ELSE UnitVal(<<a.k, a.p, a.u>>, QNorm(<<a.en, a.ed>>))
 FileVals(c) == [i \in 1..Len(c.atoms) |-> FileVal(c.atoms[i])]
 
-VARIABLES shape, vals, idx
+VARIABLES v_shape, v_vals, v_idx
 \* constant-level caches (TLC evaluates them once): per grammar shape and per pool atom
 ShapeCache == TLCEval([s \in GrammarShapes |-> [c |-> ShapeClass(s), it |-> I!Ideal(s), mt |-> MTree(s)]])
 PoolCache  == TLCEval([k \in 1..Len(Pool) |-> [i |-> IdealAtom(AtomText(Pool[k])), m |-> MachAtom(AtomText(Pool[k]))]])
 PoolIdx(v) == CHOOSE k \in 1..Len(Pool) : Pool[k] = v
 CurIdeal == IF Source = "grammar"
-            THEN IdealW(ShapeCache[shape].c, ShapeCache[shape].it, [i \in 1..Len(vals) |-> PoolCache[PoolIdx(vals[i])].i])
-            ELSE Ideal(shape, vals)
+            THEN IdealW(ShapeCache[v_shape].c, ShapeCache[v_shape].it, [i \in 1..Len(v_vals) |-> PoolCache[PoolIdx(v_vals[i])].i])
+            ELSE Ideal(v_shape, v_vals)
 CurMachine == IF Source = "grammar"
-              THEN MachineW(ShapeCache[shape].mt, [i \in 1..Len(vals) |-> PoolCache[PoolIdx(vals[i])].m])
-              ELSE Machine(shape, vals)
+              THEN MachineW(ShapeCache[v_shape].mt, [i \in 1..Len(v_vals) |-> PoolCache[PoolIdx(v_vals[i])].m])
+              ELSE Machine(v_shape, v_vals)
 
-Init == CASE Source = "enum"    -> shape = <<>> /\ vals = <<>> /\ idx = 0
-          [] Source = "grammar" -> shape \in GrammarShapes /\ vals = <<>> /\ idx = 0
-          [] Source = "file"    -> idx \in 1..(IF NFile < Stride THEN NFile ELSE Stride)
-                                   /\ shape = FileCases[idx].shape /\ vals = FileVals(FileCases[idx])
+Init == CASE Source = "enum"    -> v_shape = <<>> /\ v_vals = <<>> /\ v_idx = 0
+          [] Source = "grammar" -> v_shape \in GrammarShapes /\ v_vals = <<>> /\ v_idx = 0
+          [] Source = "file"    -> v_idx \in 1..(IF NFile < Stride THEN NFile ELSE Stride)
+                                   /\ v_shape = FileCases[v_idx].shape /\ v_vals = FileVals(FileCases[v_idx])
 
 Next == CASE Source = "enum" ->
-               /\ Len(shape) < MaxLen
+               /\ Len(v_shape) < MaxLen
                /\ \E t \in {"*", "/", "(", ")", "a"} :
-                     /\ ~(t = "a" /\ shape # <<>> /\ shape[Len(shape)] \in AtomToks)
-                     /\ shape' = Append(shape, IF t = "a" THEN AtomName(NAtoms(shape) + 1) ELSE t)
-               /\ vals' = IF NAtoms(shape') > Len(vals) THEN Append(vals, Pool[1]) ELSE vals
-               /\ idx' = idx
+                     /\ ~(t = "a" /\ v_shape # <<>> /\ v_shape[Len(v_shape)] \in AtomToks)
+                     /\ v_shape' = Append(v_shape, IF t = "a" THEN AtomName(NAtoms(v_shape) + 1) ELSE t)
+               /\ v_vals' = IF NAtoms(v_shape') > Len(v_vals) THEN Append(v_vals, Pool[1]) ELSE v_vals
+               /\ v_idx' = v_idx
           [] Source = "grammar" ->
-               /\ Len(vals) < NAtoms(shape)
-               /\ \E k \in 1..Len(Pool) : vals' = Append(vals, Pool[k])
-               /\ UNCHANGED <<shape, idx>>
+               /\ Len(v_vals) < NAtoms(v_shape)
+               /\ \E k \in 1..Len(Pool) : v_vals' = Append(v_vals, Pool[k])
+               /\ UNCHANGED <<v_shape, v_idx>>
           [] Source = "file" ->
-               /\ idx + Stride <= NFile /\ idx' = idx + Stride
-               /\ shape' = FileCases[idx'].shape /\ vals' = FileVals(FileCases[idx'])
+               /\ v_idx + Stride <= NFile /\ v_idx' = v_idx + Stride
+               /\ v_shape' = FileCases[v_idx'].shape /\ v_vals' = FileVals(FileCases[v_idx'])
 
-Complete == Len(vals) = NAtoms(shape)
+Complete == Len(v_vals) = NAtoms(v_shape)
 
 (* ---- feature tags of a scenario *)
 \* what the atoms' TEXTS mean decides the features
-Tags == IF Source = "grammar" THEN UNION {OutTags(PoolCache[PoolIdx(vals[i])].i) : i \in 1..Len(vals)}
-        ELSE UNION {AtomTextTags(AtomText(vals[i])) : i \in 1..Len(vals)}
+Tags == IF Source = "grammar" THEN UNION {OutTags(PoolCache[PoolIdx(v_vals[i])].i) : i \in 1..Len(v_vals)}
+        ELSE UNION {AtomTextTags(AtomText(v_vals[i])) : i \in 1..Len(v_vals)}
 Known == Tags \cap KnownDevs # {}
 
 (* ---- design-level checks *)
 PoolRoundTrip == \A k \in 1..Len(Pool) : AtomRoundTrip(Pool[k])
 ShapeRefines ==
   Source = "enum" =>
-    LET c == ShapeClass(shape) IN
-    /\ c = "wellformed" => MTree(shape) = I!Ideal(shape)
-    /\ c \in {"ill:unbalanced", "ill:missing_operand"} => MTree(shape) = M!MERR
+    LET c == ShapeClass(v_shape) IN
+    /\ c = "wellformed" => MTree(v_shape) = I!Ideal(v_shape)
+    /\ c \in {"ill:unbalanced", "ill:missing_operand"} => MTree(v_shape) = M!MERR
 
 Algebra ==
   Source \in {"grammar", "file"} /\ Complete =>
@@ -96,7 +96,7 @@ Algebra ==
           /\ MapSet(m.units) = MapSet(i.units)
           /\ m.num = i.num
     /\ i.cls = "wellformed" =>
-          /\ (IF Source = "grammar" THEN PoolRoundTrip ELSE \A k \in 1..Len(vals) : AtomRoundTrip(vals[k]))
+          /\ (IF Source = "grammar" THEN PoolRoundTrip ELSE \A k \in 1..Len(v_vals) : AtomRoundTrip(v_vals[k]))
           /\ LET rp == Reparse(Render(i.units)) IN rp.ok /\ rp.m = MapSet(i.units)
           \* dimensions are additive over the entries, whatever the order
           /\ DimSum(i.units) = DimSum(m.units) \/ Known
@@ -109,16 +109,16 @@ UnitsJson(m) == [k \in 1..Len(m) |-> [p |-> IdP(m[k][1]), u |-> IdU(m[k][1]), e 
 CloseBeforeAtom(s) == \E i \in 1..Len(s) : \E j \in (i + 1)..Len(s) :
                          s[i] = ")" /\ s[j] \in AtomToks /\ \A k \in i..(j - 1) : s[k] = ")"
 ShapeTags(s) == IF ShapeClass(s) = "ill:unbalanced" /\ CloseBeforeAtom(s) THEN {"foreign_lead_char"} ELSE {}
-ShapeRecord == [shape |-> shape, cls |-> ShapeClass(shape), natoms |-> NAtoms(shape), tags |-> ShapeTags(shape)]
+ShapeRecord == [shape |-> v_shape, cls |-> ShapeClass(v_shape), natoms |-> NAtoms(v_shape), tags |-> ShapeTags(v_shape)]
 CaseRecord ==
   LET i == CurIdeal  m == CurMachine IN
-  [id |-> idx, text |-> Join(ShapeText(shape, vals)), cls |-> i.cls, units |-> UnitsJson(i.units),
+  [id |-> v_idx, text |-> Join(ShapeText(v_shape, v_vals)), cls |-> i.cls, units |-> UnitsJson(i.units),
    dims |-> DimSum(i.units), factor |-> FactorTerm(i.units), num |-> NumTerm(i.num),
    render |-> Join(Render(i.units)), mach_err |-> m.err, mach_units |-> UnitsJson(m.units),
-   mach_render |-> Join(Render(m.units)), tags |-> Tags \cup ShapeTags(shape), known |-> Known]
+   mach_render |-> Join(Render(m.units)), tags |-> Tags \cup ShapeTags(v_shape), known |-> Known]
 
 EmitInv == Emit =>
    CASE Source = "enum"    -> PrintT(ToJson(ShapeRecord))
-     [] Source = "grammar" -> (vals = <<>> => PrintT(ToJson(ShapeRecord)))
+     [] Source = "grammar" -> (v_vals = <<>> => PrintT(ToJson(ShapeRecord)))
      [] Source = "file"    -> PrintT(ToJson(CaseRecord))
 =============================================================================
